@@ -84,6 +84,18 @@ CHECKS = {
             "numeric and text id lists are sent and each reply is decoded by the reference codec and compared item by item (order, values, "
             "empty item for unknown ids, alarm set bit); S2F15 must be all-or-nothing and within limits; S5F1 exactly on changes of enabled alarms.",
             "Clock and list-valued built-in SVs excluded from value comparison; unknown ALIDs in S5F5 not in the alphabet.", "DESIGN.md 3/C13"),
+    "C15": ("exploration", "enum", "bounded-exhaustive enumeration of items and of token strings against a reference SML recogniser",
+            "Round trip Item.from_sml(item.to_sml()) over the C14 leaf families, all 256 single bytes and every string up to length 3 (4 thorough) "
+            "over an 18-character awkward alphabet for A and J, float exponent sweeps and all list trees to the bound; every token string up to "
+            "length 5 (6 thorough) over a 12-token alphabet and every single-token deletion/insertion/replacement of valid texts is parsed under a "
+            "watchdog: the parser must terminate and must raise whenever the reference recogniser finds a missing closing bracket or an unknown type.",
+            "Rejection is demanded only for the two defects the statement names; watchdog is 5 s wall-clock per parse.", "DESIGN.md 3/C15"),
+    "C16": ("exploration", "enum", "bounded-exhaustive enumeration against an independent E4 block codec, all merges, all single-byte corruptions",
+            "Body lengths at every 244-byte boundary (0,1,2,243..245,487..489,732, 255 blocks, 32 767 blocks thorough) x header fields at 1 (2) "
+            "deviations: blocks compared byte for byte with ref/e4.py and decoded back field by field; every interleaving of the block sequences of "
+            "2-3 messages with distinct system bytes is fed to the reassembly of a real SecsIProtocol (exactly-once, header, body); every byte "
+            "position x every other value of encoded blocks with 0/1/244 data bytes must never decode to a valid block.",
+            "Reassembly is driven through Protocol._dispatch_block (the receiver thread's seam); blocks of one message stay in order.", "DESIGN.md 3/C16"),
 }
 
 NOT_YET = "check not built yet in this revision of /verif (see DESIGN.md section 6 build order)"
